@@ -1,5 +1,6 @@
 //! The subset of `flume` the code under test uses, on top of `fp_sched::chan`.
-use fp_sched::chan::{channel, Rx, Tx};
+use fp_sched::chan::{channel, NoRecv, NoSend, Rx, Tx};
+use std::time::{Duration, Instant};
 use std::fmt;
 
 pub struct Sender<T>(Tx<T>);
@@ -35,6 +36,101 @@ impl fmt::Display for RecvError {
 }
 impl std::error::Error for RecvError {}
 
+
+#[derive(PartialEq, Eq, Clone, Copy)]
+pub enum TrySendError<T> {
+    Full(T),
+    Disconnected(T),
+}
+#[derive(PartialEq, Eq, Clone, Copy)]
+pub enum SendTimeoutError<T> {
+    Timeout(T),
+    Disconnected(T),
+}
+#[derive(PartialEq, Eq, Clone, Copy, Debug)]
+pub enum RecvTimeoutError {
+    Timeout,
+    Disconnected,
+}
+impl<T> fmt::Debug for TrySendError<T> {
+    fn fmt(&self, f: &mut fmt::Formatter<'_>) -> fmt::Result {
+        match self {
+            TrySendError::Full(_) => "Full(..)".fmt(f),
+            TrySendError::Disconnected(_) => "Disconnected(..)".fmt(f),
+        }
+    }
+}
+impl<T> fmt::Display for TrySendError<T> {
+    fn fmt(&self, f: &mut fmt::Formatter<'_>) -> fmt::Result {
+        match self {
+            TrySendError::Full(_) => "sending on a full channel".fmt(f),
+            TrySendError::Disconnected(_) => "sending on a disconnected channel".fmt(f),
+        }
+    }
+}
+impl<T> std::error::Error for TrySendError<T> {}
+impl<T> TrySendError<T> {
+    pub fn into_inner(self) -> T {
+        match self {
+            TrySendError::Full(v) | TrySendError::Disconnected(v) => v,
+        }
+    }
+    pub fn is_full(&self) -> bool {
+        matches!(self, TrySendError::Full(_))
+    }
+    pub fn is_disconnected(&self) -> bool {
+        matches!(self, TrySendError::Disconnected(_))
+    }
+}
+impl<T> fmt::Debug for SendTimeoutError<T> {
+    fn fmt(&self, f: &mut fmt::Formatter<'_>) -> fmt::Result {
+        match self {
+            SendTimeoutError::Timeout(_) => "Timeout(..)".fmt(f),
+            SendTimeoutError::Disconnected(_) => "Disconnected(..)".fmt(f),
+        }
+    }
+}
+impl<T> fmt::Display for SendTimeoutError<T> {
+    fn fmt(&self, f: &mut fmt::Formatter<'_>) -> fmt::Result {
+        match self {
+            SendTimeoutError::Timeout(_) => "timed out waiting on send operation".fmt(f),
+            SendTimeoutError::Disconnected(_) => "sending on a disconnected channel".fmt(f),
+        }
+    }
+}
+impl<T> std::error::Error for SendTimeoutError<T> {}
+impl fmt::Display for RecvTimeoutError {
+    fn fmt(&self, f: &mut fmt::Formatter<'_>) -> fmt::Result {
+        match self {
+            RecvTimeoutError::Timeout => "timed out waiting on receive operation".fmt(f),
+            RecvTimeoutError::Disconnected => "channel is empty and disconnected".fmt(f),
+        }
+    }
+}
+impl std::error::Error for RecvTimeoutError {}
+impl RecvTimeoutError {
+    pub fn is_timeout(&self) -> bool {
+        matches!(self, RecvTimeoutError::Timeout)
+    }
+    pub fn is_disconnected(&self) -> bool {
+        matches!(self, RecvTimeoutError::Disconnected)
+    }
+}
+impl fmt::Display for TryRecvError {
+    fn fmt(&self, f: &mut fmt::Formatter<'_>) -> fmt::Result {
+        match self {
+            TryRecvError::Empty => "receiving on an empty channel".fmt(f),
+            TryRecvError::Disconnected => "receiving on an empty and disconnected channel".fmt(f),
+        }
+    }
+}
+impl std::error::Error for TryRecvError {}
+impl<T> SendError<T> {
+    pub fn into_inner(self) -> T {
+        self.0
+    }
+}
+
 pub fn unbounded<T>() -> (Sender<T>, Receiver<T>) {
     let (t, r) = channel(None, "flume-unbounded");
     (Sender(t), Receiver(r))
@@ -48,13 +144,71 @@ impl<T> Sender<T> {
     pub fn send(&self, v: T) -> Result<(), SendError<T>> {
         self.0.send(v).map_err(SendError)
     }
+    pub fn try_send(&self, v: T) -> Result<(), TrySendError<T>> {
+        self.0.try_send(v).map_err(|e| match e {
+            NoSend::Full(v) => TrySendError::Full(v),
+            NoSend::Disconnected(v) => TrySendError::Disconnected(v),
+        })
+    }
+    /// The time limit itself is not modelled: the timeout is an answer of the environment chosen by the scheduler.
+    pub fn send_timeout(&self, v: T, _d: Duration) -> Result<(), SendTimeoutError<T>> {
+        self.0.send_timeout(v).map_err(|e| match e {
+            NoSend::Full(v) => SendTimeoutError::Timeout(v),
+            NoSend::Disconnected(v) => SendTimeoutError::Disconnected(v),
+        })
+    }
+    pub fn send_deadline(&self, v: T, _d: Instant) -> Result<(), SendTimeoutError<T>> {
+        self.send_timeout(v, Duration::ZERO)
+    }
+    pub fn len(&self) -> usize {
+        self.0.query().0
+    }
+    pub fn is_empty(&self) -> bool {
+        self.0.query().0 == 0
+    }
+    pub fn is_full(&self) -> bool {
+        let (l, c) = self.0.query();
+        c.map_or(false, |c| l >= c)
+    }
+    pub fn capacity(&self) -> Option<usize> {
+        self.0.sh.cap
+    }
 }
 impl<T> Receiver<T> {
     pub fn recv(&self) -> Result<T, RecvError> {
         self.0.recv().ok_or(RecvError::Disconnected)
     }
     pub fn try_recv(&self) -> Result<T, TryRecvError> {
-        self.0.try_recv().map_err(|d| if d { TryRecvError::Disconnected } else { TryRecvError::Empty })
+        self.0.try_recv_point().map_err(|e| match e {
+            NoRecv::Empty => TryRecvError::Empty,
+            NoRecv::Disconnected => TryRecvError::Disconnected,
+        })
+    }
+    /// The time limit itself is not modelled: the timeout is an answer of the environment chosen by the scheduler.
+    pub fn recv_timeout(&self, _d: Duration) -> Result<T, RecvTimeoutError> {
+        self.0.recv_timeout().map_err(|e| match e {
+            NoRecv::Empty => RecvTimeoutError::Timeout,
+            NoRecv::Disconnected => RecvTimeoutError::Disconnected,
+        })
+    }
+    pub fn recv_deadline(&self, _d: Instant) -> Result<T, RecvTimeoutError> {
+        self.recv_timeout(Duration::ZERO)
+    }
+    pub fn iter(&self) -> Iter<'_, T> {
+        Iter(self)
+    }
+    pub fn len(&self) -> usize {
+        self.0.query().0
+    }
+    pub fn is_empty(&self) -> bool {
+        self.0.query().0 == 0
+    }
+    pub fn is_full(&self) -> bool {
+        let (l, c) = self.0.query();
+        c.map_or(false, |c| l >= c)
+    }
+    pub fn capacity(&self) -> Option<usize> {
+        self.0.sh.cap
     }
     pub fn try_iter(&self) -> TryIter<'_, T> {
         TryIter(self)
@@ -85,5 +239,35 @@ impl<T> fmt::Debug for Sender<T> {
 impl<T> fmt::Debug for Receiver<T> {
     fn fmt(&self, f: &mut fmt::Formatter<'_>) -> fmt::Result {
         f.write_str("Receiver { .. }")
+    }
+}
+
+/// Blocking iterator: ends when the channel is empty and disconnected.
+pub struct Iter<'a, T>(&'a Receiver<T>);
+impl<'a, T> Iterator for Iter<'a, T> {
+    type Item = T;
+    fn next(&mut self) -> Option<T> {
+        self.0.recv().ok()
+    }
+}
+impl<T> IntoIterator for Receiver<T> {
+    type Item = T;
+    type IntoIter = IntoIter<T>;
+    fn into_iter(self) -> IntoIter<T> {
+        IntoIter(self)
+    }
+}
+pub struct IntoIter<T>(Receiver<T>);
+impl<T> Iterator for IntoIter<T> {
+    type Item = T;
+    fn next(&mut self) -> Option<T> {
+        self.0.recv().ok()
+    }
+}
+impl<'a, T> IntoIterator for &'a Receiver<T> {
+    type Item = T;
+    type IntoIter = Iter<'a, T>;
+    fn into_iter(self) -> Iter<'a, T> {
+        Iter(self)
     }
 }
